@@ -341,7 +341,11 @@ func (cb *shimCB) Predicates(args *si.PredicatesArgs) error {
 			s.faults["predicate_flap"]++
 		}
 	}
-	side := ok && args.Allocate && s.SideEffectP > 0 && s.sideEffect != nil && s.rng.Bool(s.SideEffectP)
+	sp := s.SideEffectP
+	if m := s.Allocs[args.AllocationKey]; m != nil && !m.Placeholder && m.TaskGroup != "" && sp > 0 {
+		sp = 0.3 // a real gang ask being placed: the replacement paths re-check least
+	}
+	side := ok && args.Allocate && sp > 0 && s.sideEffect != nil && s.rng.Bool(sp)
 	s.mu.Unlock()
 	if side {
 		// the world changes while the predicate is being evaluated (no scheduler lock is held here): the shim
